@@ -45,6 +45,15 @@ pub const HOP_LIMITS: [u8; 4] = [64, 1, 255, 7];
 pub fn max_ipv6_len() -> usize {
     smoltcp::config::FRAGMENTATION_BUFFER_SIZE.min(smoltcp::config::REASSEMBLY_BUFFER_SIZE)
 }
+/// Is delivery DEMANDED for a datagram with `body` octets behind a compressed header of `ch`
+/// octets and an uncompressed header of `uh` octets? The statement says "any payload size up to
+/// the fragmentation buffer": the COMPRESSED datagram (what the sender stages in its
+/// fragmentation buffer) must fit FRAGMENTATION_BUFFER_SIZE. The uncompressed size must fit the
+/// 11-bit datagram_size field of RFC 4944 and the reassembler: this crate is built with `alloc`,
+/// where the reassembly buffer grows on demand (REASSEMBLY_BUFFER_SIZE is its initial size).
+pub fn delivery_demanded(ch: usize, uh: usize, body: usize) -> bool {
+    ch + body <= smoltcp::config::FRAGMENTATION_BUFFER_SIZE && uh + body <= 2047
+}
 
 #[derive(Clone, Debug, PartialEq, Eq, PartialOrd, Ord)]
 pub struct Scn {
@@ -434,6 +443,12 @@ pub fn label_of(scn: &Scn, interrupted: bool) -> String {
     if scn.part == "b2b" {
         p.push("two-datagrams-back-to-back".into());
     }
+    if matches!(scn.part.as_str(), "udp" | "icmp") && scn.lens.len() == 1 {
+        let (_, ch, _, extra) = hdr_sizes(scn.s_hw, scn.r_hw, scn.src, scn.dst, scn.sport, scn.dport, scn.hl, scn.proto());
+        if ch + extra + scn.lens[0] == smoltcp::config::FRAGMENTATION_BUFFER_SIZE {
+            p.push("compressed-datagram-fills-the-fragmentation-buffer-exactly".into());
+        }
+    }
     if let (true, Some(to)) = (scn.part == "hwchg", scn.hw_to) {
         p.push(format!("sender-hw-address-changed-while-fragments-pending({}->{})", scn.s_hw.name(), to.name()));
         if scn.one_per_poll {
@@ -786,7 +801,7 @@ pub struct Verdict {
 
 /// Evaluate one UDP exchange (1 or 2 datagrams) in the 6LoWPAN world against the direct clauses
 /// and against the reference world.
-pub fn eval_udp(scn: &Scn, lo: &Out, ip: Option<&Out>, acc: &mut Acc) -> Verdict {
+pub fn eval_udp(scn: &Scn, lo: &Out, ip: Option<&Out>, ch_obs: Option<usize>, acc: &mut Acc) -> Verdict {
     let proto = Proto::Udp;
     let dgs = scn.dgs();
     let nfrag1 = lo.frames.iter().filter(|f| matches!(lowpan_kind(f), LowpanKind::Frag1 { .. })).count();
@@ -808,6 +823,31 @@ pub fn eval_udp(scn: &Scn, lo: &Out, ip: Option<&Out>, acc: &mut Acc) -> Verdict
             scn,
         );
     }
+    // wire clause: all fragments of one datagram (same tag) carry the same link-layer source
+    {
+        let mut by_tag: BTreeMap<u16, Vec<u8>> = BTreeMap::new();
+        for f in &lo.frames {
+            let tag = match lowpan_kind(f) {
+                LowpanKind::Frag1 { tag, .. } | LowpanKind::FragN { tag, .. } => tag,
+                _ => continue,
+            };
+            let src = mac_src(f).unwrap_or_default();
+            match by_tag.get(&tag) {
+                Some(s0) if *s0 != src => {
+                    acc.viol(
+                        format!("C20/fragment-source-changed/udp/{}", cz),
+                        ctx(&format!("fragments of datagram tag {:#06x} carry different link-layer sources: {} and {}", tag, hex(s0), hex(&src))),
+                        scn,
+                    );
+                    break;
+                }
+                Some(_) => {}
+                None => {
+                    by_tag.insert(tag, src);
+                }
+            }
+        }
+    }
     if !lo.quiescent {
         acc.viol(format!("C20/no-quiescence/udp/{}", cz), ctx("frames still flowing after the round budget"), scn);
         rebuild = true;
@@ -819,7 +859,16 @@ pub fn eval_udp(scn: &Scn, lo: &Out, ip: Option<&Out>, acc: &mut Acc) -> Verdict
         .filter(|(i, _)| lo.accepted[*i])
         .map(|(i, d)| (i, UdpObs { payload: pattern(d.len, i), src: scn.dg_src(d).octets(), sport: d.sport, local: scn.dg_dst(d).octets() }))
         .collect();
-    let inb: Vec<bool> = exp.iter().map(|(_, e)| 48 + e.payload.len() <= max_ipv6_len()).collect();
+    // compressed header size: measured on this job's own unfragmented frame when available,
+    // otherwise predicted from the address/port/hop-limit classes
+    let inb: Vec<bool> = exp
+        .iter()
+        .map(|(i, e)| {
+            let d = &dgs[*i];
+            let ch = ch_obs.unwrap_or_else(|| hdr_sizes(scn.s_hw, scn.r_hw, d.src, d.dst, d.sport, d.dport, d.hl, Proto::Udp).1);
+            delivery_demanded(ch, 48, e.payload.len())
+        })
+        .collect();
     // safety: nothing but what was sent, each at most once
     let mut matched = vec![false; exp.len()];
     let mut match_order = vec![];
@@ -1014,6 +1063,7 @@ pub fn run_udp_job(job: &Scn, lens: &[usize], pred_unfrag_max: Option<usize>, sa
     };
     // frames per length, to confirm the predicted fragmentation threshold (evidence only)
     let mut nframes: BTreeMap<usize, usize> = BTreeMap::new();
+    let mut ch_obs: Option<usize> = None;
     for &l in lens {
         let mut scn = job.clone();
         scn.lens = vec![l];
@@ -1024,12 +1074,16 @@ pub fn run_udp_job(job: &Scn, lens: &[usize], pred_unfrag_max: Option<usize>, sa
         let mut rebuild = false;
         match (lo, io) {
             (Ok(lo), io) => {
+                if ch_obs.is_none() && lo.frames.len() == 1 && matches!(lowpan_kind(&lo.frames[0]), LowpanKind::Iphc) {
+                    // compressed IPv6+UDP header of this job = frame - MAC header - payload
+                    ch_obs = mac_hdr_len(&lo.frames[0]).and_then(|m| lo.frames[0].len().checked_sub(m + l));
+                }
                 let ipo = io.as_ref().ok();
                 if ipo.is_none() {
                     acc.machinery.push(format!("reference world panicked: {}", scn.to_json()));
                     rebuild = true;
                 }
-                let v = eval_udp(&scn, &lo, ipo, acc);
+                let v = eval_udp(&scn, &lo, ipo, ch_obs, acc);
                 rebuild |= v.rebuild;
                 acc.frames += (lo.frames.len() + lo.back_frames.len()) as u64;
                 *acc.frag_hist.entry(lo.frames.len()).or_insert(0) += 1;
@@ -1086,6 +1140,70 @@ pub fn run_udp_job(job: &Scn, lens: &[usize], pred_unfrag_max: Option<usize>, sa
     }
 }
 
+/// "hwchg" part, 6LoWPAN world: one fragmented datagram; after `chg_after` exchange rounds, while
+/// fragments are still pending, the sender's hardware address is changed through the public
+/// `Interface::set_hardware_addr`. Returns the exchange and whether fragments were pending.
+pub fn hwchg_exchange(w: &mut World, scn: &Scn) -> (Out, bool) {
+    w.clear_logs();
+    w.too_long.clear();
+    let d = scn.main_dg(scn.lens[0]);
+    let accepted = vec![w.udp_send(scn.dg_src(&d), scn.dg_dst(&d), d.dport, &pattern(d.len, 0))];
+    if scn.one_per_poll {
+        w.s.per_poll = Some(1);
+    }
+    for _ in 0..scn.chg_after {
+        w.round();
+    }
+    // pending = the sender still wants an immediate poll (unsent fragments in its buffer)
+    let pending = w.s.poll_at(w.now).is_some_and(|t| t <= w.now) && !w.s2r.is_empty();
+    if let Some(to) = scn.hw_to {
+        w.s.iface.set_hardware_addr(smoltcp::wire::HardwareAddress::Ieee802154(changed_hw(to)));
+    }
+    let quiescent = w.settle(120 + d.len / 20);
+    w.s.per_poll = None;
+    w.s.dev.budget = None;
+    let h = w.r.udp;
+    (
+        Out {
+            accepted,
+            udp: World::udp_drain(&mut w.r, h),
+            raw: std::mem::take(&mut w.raw_r),
+            frames: std::mem::take(&mut w.s2r),
+            back_frames: std::mem::take(&mut w.r2s),
+            quiescent,
+            too_long: std::mem::take(&mut w.too_long),
+        },
+        pending,
+    )
+}
+
+pub fn run_hwchg(scn: &Scn, acc: &mut Acc) {
+    acc.scenarios += 1;
+    *acc.per_part.entry(scn.part.clone()).or_insert(0) += 1;
+    let r = catch_unwind(AssertUnwindSafe(|| {
+        let (mut wl, mut wi) = world_pair(scn, acc);
+        let (lo, pending) = hwchg_exchange(&mut wl, scn);
+        // the reference world has no link layer: same datagram, no operation
+        let io = udp_exchange(&mut wi, scn);
+        acc.polls += wl.polls + wi.polls;
+        (lo, io, pending)
+    }));
+    match r {
+        Ok((lo, io, pending)) => {
+            let v = eval_udp(scn, &lo, Some(&io), None, acc);
+            acc.frames += (lo.frames.len() + lo.back_frames.len()) as u64;
+            acc.outcome(format!(
+                "hwchg {}->{} fragments-pending-at-change={} {}",
+                scn.s_hw.name(),
+                scn.hw_to.map(|h| h.name()).unwrap_or("-"),
+                pending,
+                if v.all_delivered { "delivered" } else { "not-delivered" }
+            ));
+        }
+        Err(e) => panic_viol(scn, e, acc, "6LoWPAN world (hardware address change)"),
+    }
+}
+
 /// back-to-back part: both datagrams are queued on the sender's socket before the first poll
 pub fn run_b2b(scn: &Scn, acc: &mut Acc) {
     acc.scenarios += 1;
@@ -1099,7 +1217,7 @@ pub fn run_b2b(scn: &Scn, acc: &mut Acc) {
     }));
     match r {
         Ok((lo, io)) => {
-            let v = eval_udp(scn, &lo, Some(&io), acc);
+            let v = eval_udp(scn, &lo, Some(&io), None, acc);
             acc.frames += (lo.frames.len() + lo.back_frames.len()) as u64;
             acc.outcome(format!("{} {} datagrams-needing-fragmentation={}", scn.part, if v.all_delivered { "both-delivered" } else { "not-both-delivered" }, v.nfrag1));
         }
@@ -1390,7 +1508,20 @@ pub fn run_icmp(scn: &Scn, acc: &mut Acc) {
         return;
     }
     acc.datagrams += 2;
-    let inb = 40 + 8 + len <= max_ipv6_len();
+    // request and reply must both fit; 36 = the largest IPHC header this harness can produce
+    // (2 + next header + hop limit + two in-line addresses), so this is the lenient side
+    let inb = if scn.dst.is_mcast() {
+        delivery_demanded(36, 40, 8 + len)
+    } else {
+        // unicast: the reply carries the same two addresses swapped, i.e. the same header size.
+        // The stack selects the source itself among S's addresses: take the largest header any
+        // of them gives (lenient side).
+        let mut ch = 0;
+        for src in [AddrClass::LlHw, scn.src, scn.dst] {
+            ch = ch.max(hdr_sizes(scn.s_hw, scn.r_hw, src, scn.dst, 0, 0, 7, Proto::Icmp).1);
+        }
+        delivery_demanded(ch, 40, 8 + len)
+    };
     if !inb {
         acc.beyond_bounds += 2;
     }
